@@ -115,9 +115,11 @@ class MethodGen:
         elif k == "hold":
             self.emit(depth, f"{t}Hold: {r.choice([0.3, 0.5, 1]) * self.ts:g}s")
         elif k == "simulate":
-            self.emit(depth, f"{t}Simulate: PV1 = {r.choice([0, 4, 9])} L/h")
+            # mostly an input; sometimes an OUTPUT that has a safe value (the simulated value masks what is written)
+            self.emit(depth, r.choice([f"{t}Simulate: PV1 = {r.choice([0, 4, 9])} L/h"] * 2 +
+                                      [f"{t}Simulate: OUT1 = {r.choice([33, 77])} %", f"{t}Simulate: OUT2 = Open"]))
         elif k == "simoff":
-            self.emit(depth, f"{t}Simulate off: PV1")
+            self.emit(depth, f"{t}Simulate off: {r.choice(['PV1', 'PV1', 'OUT1', 'OUT2'])}")
         elif k == "info":
             self.emit(depth, f"{t}{r.choice(['Info', 'Warning', 'Notify', 'Batch'])}: text {self.u()}")
         elif k == "counter":
